@@ -1,6 +1,14 @@
 #!/usr/bin/env python3
-"""Gen/InfoSwitch.lean: the `switch (rinfo->type)` of g_base_info_is_deprecated
-(girepository/gibaseinfo.c), re-read from /repo's current tree on every run.
+"""Gen/InfoSwitch.lean: which GIInfoTypes two kind-dependent accessors of libgirepository admit,
+re-read from /repo's current tree on every run:
+
+ (1) the `switch (rinfo->type)` of g_base_info_is_deprecated (girepository/gibaseinfo.c);
+ (2) the macro GI_IS_STRUCT_INFO (girepository/gistructinfo.h) — the list of GI_INFO_TYPE_* values it
+     compares g_base_info_get_type() with — together with the fact that g_struct_info_get_copy_function and
+     g_struct_info_get_free_function (gistructinfo.c) guard with it and then return
+     `blob->x ? g_typelib_get_string (...) : NULL` (the C09 model `structFuncName`; `C09_struct_func_name`).
+
+About (1):
 
 For every group of `case` labels that share one body the table records the labels and which
 blob member the body returns (`<Blob> *blob = (<Blob> *)&rinfo->typelib->data[rinfo->offset];
@@ -106,6 +114,48 @@ def parse(src):
     return groups
 
 
+def parse_struct_guard():
+    """-> the GI_INFO_TYPE_* names GI_IS_STRUCT_INFO admits"""
+    with open(os.path.join(REPO, 'girepository', 'gistructinfo.h'), encoding='utf-8') as f:
+        hdr = strip_comments(f.read()).replace('\\\n', ' ')
+    m = re.search(r'#\s*define\s+GI_IS_STRUCT_INFO\s*\(\s*info\s*\)\s+(.*)', hdr)
+    if not m:
+        raise Shape('gistructinfo.h: GI_IS_STRUCT_INFO not found')
+    body = ''.join(m.group(1).split())
+    while body.startswith('(') and body.endswith(')') and _balanced(body[1:-1]):
+        body = body[1:-1]
+    kinds = []
+    for term in body.split('||'):
+        while term.startswith('(') and term.endswith(')') and _balanced(term[1:-1]):
+            term = term[1:-1]
+        tm = re.match(r'^g_base_info_get_type\(\(GIBaseInfo\*\)info\)==(GI_INFO_TYPE_\w+)$', term)
+        if not tm:
+            raise Shape('gistructinfo.h: unknown term in GI_IS_STRUCT_INFO: %r' % term)
+        kinds.append(tm.group(1))
+    with open(os.path.join(REPO, 'girepository', 'gistructinfo.c'), encoding='utf-8') as f:
+        csrc = strip_comments(f.read())
+    for fn, member in (('g_struct_info_get_copy_function', 'copy_func'), ('g_struct_info_get_free_function', 'free_func')):
+        flat = ''.join(function_body(csrc, fn).split())
+        want = ('GIRealInfo*rinfo=(GIRealInfo*)info;StructBlob*blob;g_return_val_if_fail(info!=NULL,NULL);'
+                'g_return_val_if_fail(GI_IS_STRUCT_INFO(info),NULL);blob=(StructBlob*)&rinfo->typelib->data[rinfo->offset];'
+                'if(blob->%s)returng_typelib_get_string(rinfo->typelib,blob->%s);returnNULL;' % (member, member))
+        if flat != want:
+            raise Shape('gistructinfo.c: %s no longer has the shape the model was written for: %s' % (fn, flat))
+    return kinds
+
+
+def _balanced(s):
+    d = 0
+    for ch in s:
+        if ch == '(':
+            d += 1
+        elif ch == ')':
+            d -= 1
+            if d < 0:
+                return False
+    return d == 0
+
+
 def main():
     with open(SOURCE, encoding='utf-8') as f:
         src = f.read()
@@ -113,6 +163,11 @@ def main():
         groups = parse(src)
     except Shape as e:
         print('gen_info_switch: girepository/gibaseinfo.c g_base_info_is_deprecated: %s' % e)
+        return 1
+    try:
+        struct_kinds = parse_struct_guard()
+    except Shape as e:
+        print('gen_info_switch: %s' % e)
         return 1
     rows = ['(%s, %s, %s)' % (lean_list([lean_str(l) for l in labels]), lean_str(blob), lean_str(member))
             for labels, blob, member in groups]
@@ -126,11 +181,16 @@ namespace GIVerif.Gen
 def deprecatedSwitch : List (List String × String × String) :=
   %s
 
+/-- the GIInfoTypes GI_IS_STRUCT_INFO (gistructinfo.h) admits; g_struct_info_get_copy_function and
+    g_struct_info_get_free_function (gistructinfo.c) return NULL for any other info, and
+    `blob->x ? g_typelib_get_string (typelib, blob->x) : NULL` for these. -/
+def isStructInfoKinds : List String := %s
+
 end GIVerif.Gen
-''' % ('[' + ',\n   '.join(rows) + ']')
+''' % ('[' + ',\n   '.join(rows) + ']', lean_list([lean_str(k) for k in struct_kinds]))
     path, digest, changed = write_if_changed('InfoSwitch.lean', text)
-    print('gen_info_switch: %s sha256=%s changed=%s groups=%d labels=%d' % (
-        path, digest[:12], changed, len(groups), sum(len(g[0]) for g in groups)))
+    print('gen_info_switch: %s sha256=%s changed=%s groups=%d labels=%d struct_kinds=%s' % (
+        path, digest[:12], changed, len(groups), sum(len(g[0]) for g in groups), '/'.join(struct_kinds)))
     return 0
 
 
